@@ -293,7 +293,30 @@ fn master(id: &str, tier: Tier) {
                 Err(e) => infra.push(format!("cannot start worker {w}: {e}")),
             }
         }
+        // infrastructure watchdog: a worker that neither finishes nor dies is killed; this is
+        // reported as INCONCLUSIVE (exit 2), never as a violation
+        let limit = std::time::Duration::from_secs(std::env::var("VERIF_WORKER_LIMIT_S").ok().and_then(|s| s.parse().ok()).unwrap_or(match tier {
+            Tier::Quick => 900,
+            Tier::Thorough => 7200,
+        }));
+        let t0 = std::time::Instant::now();
         for (w, part, mut child) in children {
+            loop {
+                match child.try_wait() {
+                    Ok(Some(_)) => break,
+                    Ok(None) if t0.elapsed() > limit => {
+                        let _ = child.kill();
+                        infra.push(format!("worker {w} (profile {}) exceeded the {}s watchdog and was killed", bin.profile, limit.as_secs()));
+                        break;
+                    }
+                    Ok(None) => std::thread::sleep(std::time::Duration::from_millis(50)),
+                    Err(_) => break,
+                }
+            }
+            if infra.iter().any(|i| i.contains(&format!("worker {w} (profile {}) exceeded", bin.profile))) {
+                let _ = child.wait();
+                continue;
+            }
             let status = child.wait();
             let ok = status.as_ref().map(|s| s.success()).unwrap_or(false);
             let parsed: Option<Report> = std::fs::read(&part).ok().and_then(|b| serde_json::from_slice(&b).ok());
